@@ -33,6 +33,11 @@ type Obligation struct {
 	Output   string
 	Known    string // known finding id if matched
 	Group    string // cover group: satisfied if any member is satisfiable
+	// replay support (obligations generated at the exit of the unit)
+	Rets    []Val
+	Heap    map[string]*Term
+	AtExit  bool
+	NEvents int
 }
 
 type Executor struct {
@@ -842,9 +847,12 @@ func (ex *Executor) load(st *State, pv Val) Val {
 	panic("load: bad pointer kind")
 }
 
+var globalSyms = map[string]*ssa.Global{} // symbol of a package-level variable -> the variable (replay)
+
 func (ex *Executor) initialGlobal(st *State, g *ssa.Global) Val {
 	ty := g.Type().(*types.Pointer).Elem()
 	name := "g." + sanitize(relPkg(g.Pkg.Pkg.Path())+"."+g.Name())
+	globalSyms[sanitize(name)] = g
 	if isStruct(ty) {
 		return Val{T: Sym(name, SInt), Ty: ty}
 	}
